@@ -287,7 +287,83 @@ fn mac_verify_object(i: &Input) -> Outcome {
     say("OnetimeAuth::new/update/verify (&[u8] code)", &c, is_mac, a.verify(&c.as_slice()).is_ok())
 }
 
+/// k, m: the one-time key was CHOSEN (by the generator, or by an adversary) so that the correct Poly1305 tag of `m` is
+/// a special value (all zero, 1, all ones, ..): s = target - poly_r(m) mod 2^128.  The tag is whatever libsodium
+/// computes for (k, m); every verify entry point must accept it -- as libsodium's verify does -- and must give libsodium's
+/// verdict (reject) on each of its 128 single-bit neighbours.
+fn onetimeauth_verify_chosen_tag(i: &Input) -> Outcome {
+    use dryoc::onetimeauth::{Key, OnetimeAuth};
+    let (k, m) = (i.arr::<32>("k"), i.get("m"));
+    let mv = m.to_vec();
+    let tag = so::onetimeauth(m, &k);
+    if !so::onetimeauth_verify(&tag, m, &k) {
+        panic!("{} libsodium rejects its own one-time authenticator", HARNESS);
+    }
+    let what = format!("the correct authenticator {}", hex(&tag));
+
+    // computed through every entry point
+    let mut mac = [0u8; 16];
+    crypto_onetimeauth(&mut mac, m, &k);
+    eq("crypto_onetimeauth", &tag, &mac)?;
+    let mac: Vec<u8> = OnetimeAuth::compute_to_vec(Key::from(k), &mv);
+    eq("OnetimeAuth::compute_to_vec", &tag, &mac)?;
+    let mac: dryoc::onetimeauth::Mac = OnetimeAuth::compute(Key::from(k), &mv);
+    eq("OnetimeAuth::compute", &tag, mac.as_ref())?;
+
+    // accepted by every verify entry point, in every container
+    let split = m.len() / 2;
+    let feed = || {
+        let mut a = OnetimeAuth::new(Key::from(k));
+        a.update(&m[..split].to_vec());
+        a.update(&m[split..].to_vec());
+        a
+    };
+    let (tag_vec, tag_slice): (Vec<u8>, &[u8]) = (tag.to_vec(), &tag);
+    must_ok(crypto_onetimeauth_verify(&tag, m, &k), &format!("crypto_onetimeauth_verify({})", what))?;
+    must_ok(
+        OnetimeAuth::compute_and_verify(&mac, Key::from(k), &mv),
+        &format!("OnetimeAuth::compute_and_verify({}, as returned by OnetimeAuth::compute)", what),
+    )?;
+    must_ok(OnetimeAuth::compute_and_verify(&tag, Key::from(k), &mv), &format!("OnetimeAuth::compute_and_verify({}, array)", what))?;
+    must_ok(OnetimeAuth::compute_and_verify(&tag_vec, Key::from(k), &mv), &format!("OnetimeAuth::compute_and_verify({}, Vec)", what))?;
+    must_ok(OnetimeAuth::compute_and_verify(&tag_slice, Key::from(k), &mv), &format!("OnetimeAuth::compute_and_verify({}, &[u8])", what))?;
+    must_ok(feed().verify(&tag), &format!("OnetimeAuth::new/update/verify({}, array)", what))?;
+    must_ok(feed().verify(&tag_vec), &format!("OnetimeAuth::new/update/verify({}, Vec)", what))?;
+    must_ok(feed().verify(&mac), &format!("OnetimeAuth::new/update/verify({}, as returned by OnetimeAuth::compute)", what))?;
+
+    // every single-bit neighbour gets libsodium's verdict
+    for bit in 0..128usize {
+        let mut bad = tag;
+        bad[bit / 8] ^= 1 << (bit % 8);
+        let oracle = so::onetimeauth_verify(&bad, m, &k);
+        let w = format!("(bit {} of the authenticator {} flipped)", bit, hex(&tag));
+        verdict(&format!("crypto_onetimeauth_verify {}", w), oracle, crypto_onetimeauth_verify(&bad, m, &k).is_ok())?;
+        verdict(
+            &format!("OnetimeAuth::compute_and_verify {}", w),
+            oracle,
+            OnetimeAuth::compute_and_verify(&bad, Key::from(k), &mv).is_ok(),
+        )?;
+        verdict(&format!("OnetimeAuth::new/update/verify {}", w), oracle, feed().verify(&bad).is_ok())?;
+    }
+    Ok(())
+}
+
+/// One-time key (r, s) with the given r for which the correct tag of `m` is `target`: the tag is
+/// (poly_r(m) + s) mod 2^128, so s = target - tag(r, s = 0).  The polynomial value comes from libsodium; the result is
+/// cross-checked against libsodium (a mismatch is a harness error, never a finding).
+fn key_with_tag(r: &[u8; 16], m: &[u8], target: u128) -> [u8; 32] {
+    let mut k = [0u8; 32];
+    k[..16].copy_from_slice(r);
+    let base = u128::from_le_bytes(so::onetimeauth(m, &k));
+    k[16..].copy_from_slice(&target.wrapping_sub(base).to_le_bytes());
+    if so::onetimeauth(m, &k) != target.to_le_bytes() {
+        panic!("{} constructed one-time key does not give the chosen tag (k {}, m {})", HARNESS, hex(&k), hex(m));
+    }
+    k
+}
+
 pub const C07: Registry = &[
+    ("onetimeauth_verify_chosen_tag", onetimeauth_verify_chosen_tag),
     ("generichash", generichash),
     ("generichash_object", generichash_object),
     ("sha512", sha512),
@@ -482,6 +558,41 @@ pub fn c07(ctx: &mut Ctx) -> Search {
                     ctx.run("onetimeauth_pending_carry", Input::new().b("k", &k).b("m", &m))?;
                 }
             }
+        }
+    }
+
+    // ---- Poly1305 verification of authenticators with special VALUES: keys chosen so that the correct tag is 0^16, 1,
+    //      ff^16, .. (random keys get there with probability 2^-128); the correct tag must be accepted whatever it is
+    {
+        let mut rs: Vec<[u8; 16]> = vec![[0u8; 16], [0xffu8; 16], {
+            let mut one = [0u8; 16];
+            one[0] = 1;
+            one
+        }];
+        for _ in 0..(if t { 6 } else { 2 }) {
+            rs.push(ctx.rng.arr::<16>());
+        }
+        let mut targets: Vec<u128> = vec![0, 1, u128::MAX, u128::MAX - 1, 1 << 127, 0xff, 1 << 64];
+        if t {
+            targets.extend_from_slice(&[0x80, 1 << 120, 0xff << 120, (1 << 64) - 1, !((1u128 << 64) - 1), 0x0101_0101_0101_0101_0101_0101_0101_0101]);
+        }
+        let mlens: Vec<usize> = if t { vec![0, 1, 15, 16, 17, 31, 32, 33, 63, 64, 65, 127, 128, 129, 1100] } else { vec![0, 1, 16, 17, 64, 129] };
+        for r in &rs {
+            for len in &mlens {
+                let m = ctx.rng.bytes(*len);
+                for target in &targets {
+                    let k = key_with_tag(r, &m, *target);
+                    ctx.run("onetimeauth_verify_chosen_tag", Input::new().b("k", &k).b("m", &m))?;
+                }
+                let ff = vec![0xffu8; *len];
+                let k = key_with_tag(r, &ff, 0);
+                ctx.run("onetimeauth_verify_chosen_tag", Input::new().b("k", &k).b("m", &ff))?;
+            }
+        }
+        // and ordinary keys through the same entry points
+        for len in [0usize, 1, 16, 33] {
+            let (k, m) = (ctx.rng.arr::<32>(), ctx.rng.bytes(len));
+            ctx.run("onetimeauth_verify_chosen_tag", Input::new().b("k", &k).b("m", &m))?;
         }
     }
 
@@ -685,7 +796,77 @@ fn sign_ph_split(i: &Input) -> Outcome {
     Ok(())
 }
 
+/// key (16..=64 bytes, any valid BLAKE2b key), m, cuts: the `*_with_defaults` constructor of the incremental hasher with
+/// the key in a Vec / borrowed slice of ANY valid length (the whole container is the key, as for the one-shot
+/// `hash_with_defaults*`), fed in pieces, equals the one-shot functions and libsodium's crypto_generichash with the
+/// full key.
+fn generichash_defaults_key_container(i: &Input) -> Outcome {
+    use dryoc::generichash::GenericHash;
+    let (key, m) = (i.get("key"), i.get("m"));
+    let ps = if i.has("cuts") { pieces(m, i.get("cuts")) } else { vec![m] };
+    let want = match so::generichash(32, m, key) {
+        Some(w) => w,
+        None => panic!("{} libsodium rejects a {}-byte key", HARNESS, key.len()),
+    };
+    let keyvec: Vec<u8> = key.to_vec();
+    let keyslice: &[u8] = key;
+    let what = format!("{}-byte key", key.len());
+
+    // one-shot
+    let one: Vec<u8> = must_ok(
+        GenericHash::hash_with_defaults_to_vec::<_, Vec<u8>>(m, Some(&keyvec)),
+        &format!("GenericHash::hash_with_defaults_to_vec ({} in a Vec)", what),
+    )?;
+    eq(&format!("GenericHash::hash_with_defaults_to_vec ({} in a Vec) vs libsodium", what), &want, &one)?;
+    let one: Vec<u8> = must_ok(
+        GenericHash::hash_with_defaults::<_, &[u8], _>(m, Some(&keyslice)),
+        &format!("GenericHash::hash_with_defaults ({} as &[u8])", what),
+    )?;
+    eq(&format!("GenericHash::hash_with_defaults ({} as &[u8]) vs libsodium", what), &want, &one)?;
+
+    // incremental, key in a Vec
+    let mut h = must_ok(
+        GenericHash::new_with_defaults::<Vec<u8>>(Some(&keyvec)),
+        &format!("GenericHash::new_with_defaults ({} in a Vec)", what),
+    )?;
+    for p in &ps {
+        h.update(*p);
+    }
+    let inc = must_ok(h.finalize_to_vec(), "GenericHash::finalize_to_vec")?;
+    eq(
+        &format!("GenericHash::new_with_defaults ({} in a Vec) / update / finalize, pieces {}: incremental vs libsodium (= one-shot)", what, desc(&ps)),
+        &want,
+        &inc,
+    )?;
+    // incremental, key as a borrowed slice
+    let mut h = must_ok(
+        GenericHash::new_with_defaults::<&[u8]>(Some(&keyslice)),
+        &format!("GenericHash::new_with_defaults ({} as &[u8])", what),
+    )?;
+    for p in &ps {
+        h.update(*p);
+    }
+    let inc: Vec<u8> = must_ok(h.finalize(), "GenericHash::finalize")?;
+    eq(
+        &format!("GenericHash::new_with_defaults ({} as &[u8]) / update / finalize, pieces {}: incremental vs libsodium (= one-shot)", what, desc(&ps)),
+        &want,
+        &inc,
+    )?;
+    // 32-byte keys also in the fixed-length containers
+    if key.len() == 32 {
+        let karr: [u8; 32] = key.try_into().unwrap();
+        let mut h = must_ok(GenericHash::new_with_defaults::<[u8; 32]>(Some(&karr)), "GenericHash::new_with_defaults (array key)")?;
+        for p in &ps {
+            h.update(*p);
+        }
+        let inc = must_ok(h.finalize_to_vec(), "GenericHash::finalize_to_vec")?;
+        eq(&format!("GenericHash::new_with_defaults (32-byte array key), pieces {}", desc(&ps)), &want, &inc)?;
+    }
+    Ok(())
+}
+
 pub const C08: Registry = &[
+    ("generichash_defaults_key_container", generichash_defaults_key_container),
     ("generichash_split", generichash_split),
     ("generichash_object_split", generichash_object),
     ("auth_split", auth_split),
@@ -768,6 +949,29 @@ pub fn c08(ctx: &mut Ctx) -> Search {
         }
         run_gh_object(ctx, "generichash_object_split", &m, None)?;
         run_gh_object(ctx, "generichash_object_split", &m, Some(&cuts(&[0, len / 2, len])))?;
+    }
+
+    // `GenericHash::new_with_defaults` keyed with a Vec / slice of every valid BLAKE2b key length (16..=64, in
+    // particular longer than the 32-byte default): one update, two, several, empty pieces
+    {
+        let klens: Vec<usize> = if t { (33..=64).chain(16..=32).collect() } else { vec![33, 64, 48, 40, 63, 32, 31, 16] };
+        for klen in klens {
+            let key = ctx.rng.bytes(klen);
+            for len in [0usize, 1, 17, 127, 128, 129, 200, 300] {
+                if !t && klen != 33 && klen != 64 && len % 2 == 0 {
+                    continue;
+                }
+                let m = ctx.rng.bytes(len);
+                let base = Input::new().b("key", &key).b("m", &m);
+                ctx.run("generichash_defaults_key_container", base.clone())?;
+                let c = ctx.rng.below(len + 1);
+                ctx.run("generichash_defaults_key_container", base.clone().b("cuts", &cuts(&[c])))?;
+                ctx.run("generichash_defaults_key_container", base.clone().b("cuts", &cuts(&[0, len / 2, len / 2, len])))?;
+                if len >= 129 {
+                    ctx.run("generichash_defaults_key_container", base.b("cuts", &cuts(&[13, 64, 128, 129])))?;
+                }
+            }
+        }
     }
 
     // Poly1305 with a carry pending in the middle limb right at the end of a
